@@ -28,6 +28,10 @@ type evalCtx struct {
 	old   *State
 	names func(ev *evalCtx, name string) (Term, bool)
 	bound map[string]Term
+	// oldIsHeader: old() denotes a loop-header state (iter_ensures), so variables inside old() still resolve
+	// through names; otherwise old() is the function entry and parameters resolve to their entry values
+	oldIsHeader bool
+	inOld       bool
 }
 
 func (ev *evalCtx) with(cur *State) *evalCtx {
@@ -121,6 +125,7 @@ func (ev *evalCtx) eval(e *Expr) Term {
 		}
 		n := *ev
 		n.cur = ev.old
+		n.inOld = true
 		return n.eval(e.Args[0])
 	case "sel":
 		return ev.sel(ev.eval(e.Args[0]), e.Name)
@@ -316,6 +321,11 @@ func (ev *evalCtx) ident(name string) Term {
 	}
 	// the current value of a source variable (a reassigned parameter has phis) takes precedence over the
 	// entry value bound in env
+	if ev.inOld && !ev.oldIsHeader {
+		if t, ok := ev.env[name]; ok {
+			return t
+		}
+	}
 	if ev.names != nil {
 		if t, ok := ev.names(ev, name); ok {
 			return t
@@ -505,6 +515,9 @@ func (ev *evalCtx) call(e *Expr) Term {
 		return Term{app("eref_arr", arg(0).S), "Ref", nil}
 	case "eref_idx":
 		return Term{app("eref_idx", arg(0).S), "Int", nil}
+	case "scat":
+		f := c.declFun("scat", []Sort{"Str", "Str"}, "Str")
+		return Term{app(f, arg(0).S, arg(1).S), "Str", types.Typ[types.String]}
 	case "selem":
 		return Term{app("selem", arg(0).S, arg(1).S), "Ref", nil}
 	case "eref":
